@@ -325,6 +325,78 @@ def run(ctx):
         n_inst_ok += 1
         if len(samples) < 7 and variant == "orig" and family in ("tuple-grouping", "generic-application-vs-underscore-name"):
             samples.append({"instance_case": pid, "instance_table": tables, "stdout": vlib.unesc(go[1])[:160]})
+
+    # ------------------------------------------------------------------ (D) identifier-level collisions
+    ident_meta = {r[0]: r for r in irows if len(r) >= 13 and r[1] == "IDENT"}
+    n_id = n_id_ok = n_id_unwritable = 0
+    id_kinds = collections.Counter()
+    id_patterns = collections.Counter()
+    control_shape = {}
+    for pid, m in ident_meta.items():
+        if m[3] == "control" and pid in iprogs and "reject" not in iprogs[pid] and "panic" not in iprogs[pid]:
+            control_shape.setdefault(m[2], m[11])
+    for pid, m in sorted(ident_meta.items()):
+        kind, pattern, word, an, bn, ga, gb, want, declared, shape, scope = m[2], m[3], m[4], m[5], m[6], m[7], m[8], m[9], m[10].split(), m[11], m[12]
+        d = iprogs.get(pid, {})
+        n_id += 1
+        payload = {"id": pid, "item_kind": kind, "names": [an, bn], "real_go_ident": [ga, gb], "src": d.get("src")}
+        sig = {"oracle": "ident-collision", "item_kind": kind, "pattern": pattern if pattern != "fold" else "fold:" + word}
+        def fail(failure, what, extra=None):
+            ctx.report(dict(sig, failure=failure), f"{pid}: {what}", dict(payload, **(extra or {})))
+        if "panic" in d:
+            fail("compiler-panic", f"the compiler panics: {d['panic'][:140]}", {"outcome": d["panic"][:300]})
+            continue
+        if "reject" in d:
+            if d["reject"][0] in ("parser", "lower"):
+                n_id_unwritable += 1        # one of the two names is not an identifier of the language
+            elif pattern == "control":
+                ctx.broken_ties.append(("ident template", f"{pid}: the control program is rejected: {d['reject'][1][:200]}"))
+            else:
+                # both names lex as identifiers and the control of this kind compiles: rejecting the pair is a
+                # front-end matter (e.g. `main`), recorded but not a naming violation
+                ctx.notes.append(f"{pid} rejected at {d['reject'][0]}: {d['reject'][1][:80]}") if len(ctx.notes) < 12 else None
+                n_id_unwritable += 1
+            continue
+        id_kinds[kind] += 1
+        id_patterns[pattern] += 1
+        # injectivity of the REAL go_ident on the two declared source names (item kinds emitted under go_ident;
+        # the others — locals, inherent methods, traits, type parameters — are judged by what the Go file does)
+        if want != "-" and ga == gb:
+            fail("go-ident-merges-two-source-names", f"go_ident({an!r}) = go_ident({bn!r}) = {ga!r}")
+            continue
+        # … and where the item is emitted under go_ident, both must be among the identifiers the Go AST declares there
+        if want != "-" and (ga not in declared or gb not in declared):
+            fail("declared-names-differ-from-go-ident", f"{want}: go_ident gives {[ga, gb]}, the Go AST declares {declared[:12]}", {"declared": declared})
+            continue
+        sc = c17_sexp(scope)
+        if sc:
+            fail("go-scope:" + sc[0][0], f"emitted Go has {sc[0][0]} on {sc[0][1]}", {"failures": sc[:6]})
+            continue
+        g = igc.get(pid)
+        if g is not None and g[0] == "err" and kind not in ("extern-type", "extern-fn"):
+            fail("go-check-rejects", f"the emitted Go is not valid: {g[1][:140]}", {"go_check": g[1][:400]})
+            continue
+        if kind in control_shape and shape != control_shape[kind]:
+            fail("resolution-shape-differs-from-control", "identifiers resolve to other declarations than with the names zqa/zqb",
+                 {"shape": shape, "control_shape": control_shape[kind]})
+            continue
+        o = d.get("out", {})
+        ref = o.get("core")
+        if ref is None or ref[0].startswith("stuck"):
+            ref = o.get("mono")
+        go = o.get("go")
+        if kind not in ("extern-type", "extern-fn"):
+            if ref is None or go is None or ref[0] in ("decode-error", "parse-error") or go[0] in ("decode-error", "parse-error"):
+                ctx.broken_ties.append(("sem driver", f"{pid}: core/mono={ref} go={go}")); continue
+            if ref[0].startswith("stuck") or ref[0] == "fuel":
+                ctx.broken_ties.append(("Sem cannot run the identifier program", f"{pid}: {ref[0]}")); continue
+            if (go[0], go[1]) != (ref[0], ref[1]):
+                fail("go-behaves-unlike-core", f"Go.Sem prints {vlib.unesc(go[1])[:80]!r} ({go[0]}), Sem of Core {vlib.unesc(ref[1])[:80]!r} ({ref[0]})",
+                     {"go": {"status": go[0], "stdout": vlib.unesc(go[1])[:300]}, "core": {"status": ref[0], "stdout": vlib.unesc(ref[1])[:300]}})
+                continue
+        n_id_ok += 1
+        if len(samples) < 9 and pattern == "w_" and kind in ("fn", "field") and word in ("select", "default"):
+            samples.append({"ident_case": pid, "real_go_ident": [ga, gb], "declared": declared[-6:]})
     # (c) a consistent renaming of the user identifiers does not change the outcome
     n_ren = n_ren_ok = 0
     for pid, oc in sorted(inst_out.items()):
@@ -349,10 +421,12 @@ def run(ctx):
     ctx.violations.sort(key=lambda v: len(v[2].get("src", "")))
 
     cov = {
-        "evaluations": len(cases) + len(rows) + len(corpus) + n_inst,
-        "distinct_nontrivial": len(distinct) + n_prog_ok + n_inst_ok,
+        "evaluations": len(cases) + len(rows) + len(corpus) + n_inst + n_id,
+        "distinct_nontrivial": len(distinct) + n_prog_ok + n_inst_ok + n_id_ok,
         "instance_collision_hunt": {"programs": n_inst, "by_family": dict(inst_fam), "programs_all_oracles_clean": n_inst_ok,
                                     "instance_names_read_from_real_mono_tables": n_inst_names,
+                                    "identifier_pairs": {"programs": n_id, "accepted_and_clean": n_id_ok, "not_writable_or_rejected": n_id_unwritable,
+                                                         "accepted_by_item_kind": dict(id_kinds), "accepted_by_pattern": dict(id_patterns)},
                                     "renamed_variants": n_ren, "renamed_variants_same_outcome": n_ren_ok, "generator": ifeats},
         "rule": "encoder cases: distinct inputs, non-trivial = identifier that takes the escaping branch or any type (all seven type "
                 "encoders are compared per type); programs: accepted by the real pipeline (one template × one adversarial name each)",
